@@ -48,6 +48,9 @@ def run(ctx, obs):
     for fn in ('fit_select', '_loss', 'fit_regress', 'fit_regress_nn'):
         restrict(ctx, obs, F + fn)
     siblings(ctx, obs)
+    from ..rules.sibnorm import compare_siblings
+    compare_siblings(ctx, obs, F + 'fit_regress', F + 'fit_regress_nn', 'method', ('cosine', 'corr', 'cosine_cov', 'corr_cov'),
+                     {'data': 'data', 'model': 'model'}, what='operands (regressors from the model, target from the data)')
     from_dict(ctx, obs)
     shapes(ctx, obs)
     purity(ctx, obs)
